@@ -69,6 +69,68 @@ pub fn texts(rows: &[V]) -> String {
     format!("[{}]", v.join(" "))
 }
 
+/// The same command line in another documented spelling (variant 1: the other long name of every option that has
+/// one; 2: short options with the value as a separate word; 3: long options with the value as a separate word;
+/// 4: short options with the value attached). Arguments are expected in the `--name=value` / `--flag` form.
+/// A value-less `--group-by`/`--merge` never ends up in front of another word.
+pub fn respell(args: &[String], variant: usize) -> Vec<String> {
+    const NAMES: [(&str, &str, &str); 12] = [
+        ("--select", "--choose", "-c"),
+        ("--filter", "--where", "-f"),
+        ("--split-by", "--break-by", "-b"),
+        ("--group-by", "--combine", "-g"),
+        ("--merge", "--group-by", "-g"),
+        ("--sort-by", "--order-by", "-s"),
+        ("--take", "--limit", "-t"),
+        ("--skip", "--skip", "-k"),
+        ("--unique", "--unique", "-u"),
+        ("--set", "--set", "-e"),
+        ("--output-style", "--output-style", "-o"),
+        ("--row-seperator", "--row-seperator", "-r"),
+    ];
+    let mut out: Vec<String> = Vec::new();
+    let mut bare_group: Option<String> = None;
+    for a in args {
+        let (name, value) = match a.split_once('=') {
+            Some((n, v)) if n.starts_with("--") => (n, Some(v)),
+            _ => (a.as_str(), None),
+        };
+        let Some((_, other, short)) = NAMES.iter().find(|(n, _, _)| *n == name) else {
+            out.push(a.clone());
+            continue;
+        };
+        let spelled = match variant {
+            1 => *other,
+            2 | 4 => *short,
+            _ => name,
+        };
+        match value {
+            // a value that starts with '-' cannot stand as a separate word
+            Some(v) if (variant == 2 || variant == 3) && !v.starts_with('-') => {
+                out.push(spelled.to_string());
+                out.push(v.to_string());
+            }
+            Some(v) if variant == 4 => out.push(format!("{spelled}{v}")),
+            Some(v) if variant == 2 => out.push(format!("{spelled}{v}")),
+            Some(v) => out.push(format!("{spelled}={v}")),
+            None if name == "--merge" || name == "--group-by" => bare_group = Some(spelled.to_string()),
+            None => out.push(spelled.to_string()),
+        }
+    }
+    if let Some(g) = bare_group {
+        // an option with an optional value: keep it where no word can follow it ... except file names, so put it first
+        // only when something that starts with '-' follows
+        match out.first() {
+            Some(f) if f.starts_with('-') => out.insert(0, g),
+            _ => {
+                out.insert(0, g);
+                out.rotate_left(1);
+            }
+        }
+    }
+    out
+}
+
 pub fn case_for(cfg: &Config, inputs: &[V]) -> Case {
     Case::owned(cfg.args(), pipeline::input_text(inputs))
 }
